@@ -216,6 +216,12 @@ def main(argv=None):
     for oid in missing:
         if "/call-pre#" in oid:
             continue   # a call site may legitimately disappear; the callee's own obligations remain
+        if any(k in oid for k in ("/inv-init#", "/inv-preserve#", "/inv-use#", "/unwind#")):
+            # a loop may legitimately disappear (loop -> comprehension): accepted when the same function still has a
+            # functional postcondition obligation (returns / ensures / final) generated in this run
+            fn_prefix = oid.rsplit("/", 1)[0] + "/"
+            if any(o2.startswith(fn_prefix) and any(k in o2 for k in ("/returns", "/ensures", "/final")) for o2 in by_id):
+                continue
         fn = oid.split("/", 1)[1].rsplit("/", 1)[0] if "/" in oid else oid
         if any(fn.split("::")[-1] in m and fn.split("::")[0].split("/")[-1] in m for m in missing_fn_prefixes):
             continue
